@@ -356,7 +356,7 @@ def random_edits(c, rng: random.Random, k=None, allow_into_bench=True, allow_int
         if not labels:
             break
         kind = rng.choice(['add_remove', 'add_remove', 'remove_free', 'rename', 'rename_back', 'into_bench', 'outputs',
-                           'add_keep', 'replace_input'])
+                           'add_keep', 'replace_input', 'refused', 'refused'])
         try:
             if kind in ('add_remove', 'add_keep'):
                 t = rng.choice(['AND', 'OR', 'XOR', 'GT', 'LIFF', 'RNOT', 'NOT', 'NAND'])
@@ -394,6 +394,40 @@ def random_edits(c, rng: random.Random, k=None, allow_into_bench=True, allow_int
                 rng.shuffle(outs)
                 c.set_outputs(outs)
                 done.append([kind, outs])
+            elif kind == 'refused':
+                # a request the library must refuse; the caller catches the error and keeps using the object
+                sub = rng.choice(['replace_inputs_mixed', 'rename_to_existing', 'remove_used', 'emplace_existing',
+                                  'emplace_missing_operand', 'set_inputs_duplicate', 'set_outputs_unknown', 'rename_missing'])
+                non_in = [l for l in labels if c.get_gate(l).gate_type != G.INPUT]
+                ins = list(c.inputs)
+                try:
+                    if sub == 'replace_inputs_mixed' and allow_interface and len(ins) > 1 and non_in:
+                        i = rng.choice(ins)
+                        bad = rng.choice(non_in + ['__no_such_gate__'])
+                        if rng.random() < 0.5:
+                            c.replace_inputs([i], [bad])
+                        else:
+                            c.replace_inputs([bad], [i])
+                    elif sub == 'rename_to_existing' and len(labels) > 1:
+                        a, b = rng.sample(labels, 2)
+                        c.rename_gate(a, b)
+                    elif sub == 'remove_used':
+                        used = [l for l in labels if c.get_gate_users(l)]
+                        if used:
+                            c.remove_gate(rng.choice(used))
+                    elif sub == 'emplace_existing':
+                        c.emplace_gate(rng.choice(labels), G.AND, (rng.choice(labels), rng.choice(labels)))
+                    elif sub == 'emplace_missing_operand':
+                        c.emplace_gate('edx%d' % step, G.AND, (rng.choice(labels), '__no_such_gate__'))
+                    elif sub == 'set_inputs_duplicate' and ins:
+                        c.set_inputs(ins + [ins[0]])
+                    elif sub == 'set_outputs_unknown':
+                        c.set_outputs(list(c.outputs) + ['__no_such_gate__'])
+                    elif sub == 'rename_missing':
+                        c.rename_gate('__no_such_gate__', 'edy%d' % step)
+                    done.append([kind, sub, 'accepted'])
+                except Exception as e:
+                    done.append([kind, sub, 'refused:' + type(e).__name__])
             elif kind == 'replace_input' and allow_interface and len(c.inputs) > 1:
                 i = rng.choice(list(c.inputs))
                 if rng.random() < 0.5:
